@@ -533,6 +533,87 @@ have -> : weights mu ln s = w.
 have -> : mueff w = 1 / \sum_(i < mu) w 0 i ^+ 2 by rewrite /mueff sw1 expr1n.
 by [].
 Qed.
+Section Defaults.
+Hypothesis n_pos : (0 < n)%N.
+
+Lemma sum_gt0 (F : 'I_mu -> R) : (forall i, 0 < F i) -> 0 < \sum_i F i.
+Proof.
+case: mu mu_pos F => // m _ F Fp.
+by rewrite big_ord_recl; apply: ltr_paddr (Fp _); apply: sumr_ge0 => i _; exact: ltW.
+Qed.
+
+Lemma two_le_sq : 2%:R <= (n%:R + 13%:R / 10%:R) ^+ 2 :> R.
+Proof.
+have h : (23%:R / 10%:R : R) <= n%:R + 13%:R / 10%:R.
+  have -> : (23%:R / 10%:R : R) = 1 + 13%:R / 10%:R by field.
+  by rewrite ler_add2r ler1n.
+apply: le_trans (_ : (23%:R / 10%:R) ^+ 2 <= _).
+  by rewrite expr_div_n ler_pdivl_mulr ?exprn_gt0 ?ltr0n // -!natrX -natrM ler_nat.
+rewrite ler_expn2r // nnegrE ?divr_ge0 ?ler0n //.
+by apply: le_trans h; rewrite divr_ge0 ?ler0n.
+Qed.
+
+Lemma weights_spec_pos s (i : 'I_mu) : 0 < weights mu ln s 0 i /\ \sum_(j < mu) weights mu ln s 0 j = 1.
+Proof.
+have [wpos _ sw1] := weights_pos_noninc_sum1 (chiN_of R n) (mkKargs s None None None None None).
+have Ew : p_weights (compute_params n mu ln (chiN_of R n) (mkKargs s None None None None None)) = weights mu ln s.
+  rewrite /compute_params /weights /=; apply/rowP => j; rewrite !mxE; congr (_ / _).
+  by apply: eq_bigr => l _; rewrite mxE.
+by rewrite -Ew; split.
+Qed.
+
+Lemma mueff_gt0 s : 0 < mueff (weights mu ln s).
+Proof.
+rewrite /mueff divr_gt0 //.
+  by rewrite exprn_gt0 // sum_gt0 // => i; case: (weights_spec_pos s i).
+by apply: sum_gt0 => i; rewrite exprn_gt0 //; case: (weights_spec_pos s i).
+Qed.
+
+(* the documented defaults are admissible rates: the hypotheses of C_psd_preserved / run_consistent
+   hold for them *)
+Theorem default_rates_admissible s :
+  let P := default_params n mu ln s in
+  rates_ok P /\ p_ccov1 P + p_ccovmu P <= 1.
+Proof.
+rewrite /default_params /=.
+set me := mueff (weights mu ln s).
+have me0 : 0 < me by exact: mueff_gt0.
+have den1 : 0 < (n%:R + 13%:R / 10%:R) ^+ 2 + me by rewrite ltr_paddl ?sqr_ge0.
+have c1_ge0 : 0 <= ccov1_default n me by rewrite /ccov1_default divr_ge0 ?ler0n // ltW.
+have c1_le1 : ccov1_default n me <= 1.
+  rewrite /ccov1_default ler_pdivr_mulr // mul1r.
+  by apply: le_trans two_le_sq _; rewrite ler_addl ltW.
+have cmu0_ge0 : 0 <= ccovmu_default n me.
+  rewrite /ccovmu_default divr_ge0 //; last by rewrite addr_ge0 ?sqr_ge0 // ltW.
+  rewrite mulr_ge0 ?ler0n //.
+  have -> : me - 2%:R + 1 / me = (me - 1) ^+ 2 / me by field; rewrite gt_eqF.
+  by rewrite divr_ge0 ?sqr_ge0 // ltW.
+split; last by rewrite addrC -ler_subr_addr le_minl lexx.
+split=> //.
+- by rewrite le_minr subr_ge0 c1_le1 cmu0_ge0.
+- rewrite /cc_default divr_ge0 ?ler0n ?addr_ge0 ?ler0n ?ler01 //=.
+  rewrite ler_pdivr_mulr; last by rewrite ltr_paddl ?ler0n ?ltr0n.
+  by rewrite -natrD -natrM ler_nat mulnDr (leq_trans _ (leq_addl _ _)).
+- by move=> i; apply: ltW; case: (weights_spec_pos s i).
+Qed.
+
+(* a strategy built with the documented defaults stays consistent over every run *)
+Theorem default_run_consistent s centroid sigma cmatrix (Xs : seq 'M[R]_(mu, n)) :
+  (forall x, 0 < exp x) -> 0 < sigma ->
+  let C0 := if cmatrix is Some C0 then C0 else 1%:M in
+  C0^T = C0 -> psd C0 ->
+  (forall C, C^T = C -> psd C -> eigh_ok C) ->
+  let Pst := @init R n mu ln eigh argsort centroid sigma cmatrix (mkKargs s None None None None None) in
+  consistent (run Pst.1 Pst.2 Xs).
+Proof.
+move=> ex sp C0 symC psC eo /=.
+rewrite computeParams_is_documented.
+have [rk le1] := default_rates_admissible s.
+have cst := @init_consistent centroid sigma cmatrix (mkKargs s None None None None None) sp symC psC (eo _ symC psC).
+set st0 := (init _ _ _ _ _ _ _ _).2 in cst *.
+by have [] := @run_consistent _ st0 Xs ex rk le1 eo psC cst.
+Qed.
+End Defaults.
 End Weights.
 
 End Proofs.
